@@ -30,7 +30,7 @@ macro_rules! ver_iter_bound {
                 // a record needs $min bytes and every step advances by >= 1 byte: at most one item per byte
                 assert!(yielded as usize + $min - 1 <= len);
             }
-            kani::cover!(yielded >= 3, "three or more overlapping records walked");
+            kani::cover!(yielded >= 2, "two or more overlapping records walked");
             kani::cover!(yielded == 1 && count as u64 > 1000, "absurd count, one record");
         }
     };
